@@ -1,4 +1,4 @@
 SPECIFICATION Spec
 CONSTANTS MaxTx=5 MaxId=7 Variant="asis"
-INVARIANTS OneChain AckMeansStored
+INVARIANTS OneChain AckMeansStored AckMeansRestorable SnapshotOnChain
 CHECK_DEADLOCK FALSE
